@@ -369,6 +369,34 @@ def r06_4(cx):
                 if not nm.endswith('slice::sort'):
                     why = why or 'leftmost-first orders the patterns with %s (expected the stable ascending sort by id)' % nm
             else:
+                if nm.endswith('slice::sort_by_key') or nm.endswith('slice::sort_by_cached_key'):
+                    # the stable sort by key: the key must be Reverse(length of the pattern with that id)
+                    f = c[2][1]
+                    cb = cx.facts.bodies.get(f[2]) if f[0] == 'agg' and f[1] == 'closure' else None
+                    if cb is None:
+                        why = why or 'the leftmost-longest sort key is not a closure literal'
+                        continue
+                    cx.bodies_seen.add(cb.path)
+                    crow = [x for x in summarize(cx.facts, cb) if x.end == 'return']
+                    A = cstr(cb_param(cb, 2))
+                    kt = canon(crow[0].ret) if len(crow) == 1 else None
+                    inner = None
+                    if kt is not None and is_agg(kt, r'core::cmp::Reverse$'):
+                        inner = kt[3].get('0') if isinstance(kt[3], dict) else (kt[3][0] if kt[3] else None)
+                    good = inner is not None
+                    try:
+                        for la in (0, 1, 4, 9):
+                            def atk(t0, la=la):
+                                s0 = cstr(t0)
+                                if (re.search(r'(Pattern::len|slice::len|Vec::len)\(', s0) or s0.startswith('len(')) and A in s0:
+                                    return la
+                                return None
+                            good = good and teval(inner, atk) == la
+                    except (Unsupported, EvalPanic):
+                        good = False
+                    if not good:
+                        why = why or 'the leftmost-longest sort key is not Reverse(pattern length)'
+                    continue
                 if not nm.endswith('slice::sort_by'):
                     why = why or 'leftmost-longest orders the patterns with %s (expected the stable sort_by: equal lengths keep insertion order)' % nm
                     continue
@@ -877,3 +905,77 @@ def r15_7(cx):
         ok = len(got) == 1 and got[0] == want
         cx.report('R15.7', b, 'load-width', ok, '%s reads %d bytes' % (m.group(3), want) if ok else '%s::%s reads %s bytes (expected one read of %d): a wider read leaves the window the caller validated' % (m.group(2).rsplit('::', 1)[-1], m.group(3), got, want))
     cx.floor('R15.7', 'vector load functions', n, 3)
+
+
+# ------------------------------------------------------------------------------------------------- R06.10 bucket assignment
+def r06_10(cx):
+    """Teddy::new: which bucket a pattern goes to is a function of its key (the low nybbles of its first mask_len bytes) alone:
+    the first pattern with a key chooses the bucket, every later pattern with that key follows it.  Verification stops at the
+    first hit inside one bucket, so two patterns that can match at the same place must share a bucket or priority is lost."""
+    from acverif.sym import Sym, loop_rows, innermost_loop, canon, cstr
+    b = cx.body(GEN + 'Teddy::<BUCKETS>::new')
+    why = None
+    nx = [bi for bi, t in b.calls(r'Iterator::next$')]
+    h = innermost_loop(b, nx[0]) if len(nx) == 1 else None
+    if h is None:
+        cx.bad('R06.10', b, 'bucket-map', 'the pattern loop of Teddy::new was not found')
+        return
+    sym = Sym(cx.facts, b)
+    mods, _ = sym.loop_mods(h)
+    maps = [l for l in mods if re.match(r'^(alloc::collections::BTreeMap|std::collections::HashMap|hashbrown::HashMap)<', b.locals[l]['ty'])]
+    pre = [r for r in Sym(cx.facts, b, start=0, stop={h}).rows() if r.end == ('stop', h)]
+    if len(maps) != 1 or not pre or not all(maps[0] in r.env and is_call(canon(r.env[maps[0]]), r'(BTreeMap|HashMap)(::<.*>)?::new$') for r in pre):
+        cx.report('R06.10', b, 'bucket-map', False, 'the key -> bucket assignment is not kept in one map that starts empty (loop-carried maps: %d)' % len(maps))
+        return
+    M = cstr(sym.default_local(maps[0]))
+    rows = [r for r in loop_rows(cx.facts, b, h) if r.end != 'diverge']
+    n_hit = n_new = 0
+    for r in rows:
+        calls = [canon(c) for c in r.calls(r'.')]
+        onmap = [c for c in calls if c[2] and cstr(c[2][0]) == M]
+        pushes = [c for c in calls if re.search(r'Vec(::<.*>)?::push$', short(c[1]))]
+        some = r.cond(lambda c: canon(c)[0] == 'discr' and is_call(canon(c)[1], r'Iterator::next$'))
+        if isinstance(some, tuple) and some[0] == 'not':
+            some = 0 if 1 in some[1] else 1
+        if some != 1:
+            if pushes or onmap:
+                why = why or 'buckets or the map are touched after the patterns are exhausted'
+            continue
+        item = None
+        for c, v in r.conds:
+            cc = canon(c)
+            if cc[0] == 'discr' and is_call(cc[1], r'Iterator::next$'):
+                item = cstr(('f', ('dc', cc[1], 'Some'), '0'))
+        keys = {cstr(c[2][1]) for c in onmap if len(c[2]) > 1}
+        key_ok = len(keys) == 1 and all(re.match(r'^packed::pattern::Pattern::low_nybbles\(%s\.1, packed::teddy::generic::Teddy::mask_len\(' % re.escape(item), k) for k in keys)
+        if not key_ok:
+            why = why or 'the map is not consulted with the pattern\'s own key low_nybbles(pattern, mask_len) (%s)' % sorted(keys)[:2]
+            continue
+        gets = [c for c in onmap if re.search(r'::get$', short(c[1]))]
+        ins = [c for c in onmap if re.search(r'::insert$', short(c[1]))]
+        other = [c for c in onmap if c not in gets and c not in ins]
+        if other or len(gets) != 1:
+            why = why or 'the map is used through %s' % [short(c[1]) for c in (other or onmap)][:3]
+            continue
+        hit = r.cond(lambda c: canon(c)[0] == 'discr' and cstr(canon(c)[1]) == cstr(gets[0]))
+        if isinstance(hit, tuple) and hit[0] == 'not':
+            hit = 0 if 1 in hit[1] else 1
+        if len(pushes) != 1 or cstr(pushes[0][2][1]) != item + '.0':
+            why = why or 'an iteration does not push exactly its own pattern id into one bucket'
+            continue
+        tgt = pushes[0][2][0]
+        slot = cstr(tgt[2]) if tgt[0] == 'idx' else (cstr(tgt[2][1]) if is_call(tgt, r'Index(Mut)?::index(_mut)?$') else None)
+        if hit == 1:
+            n_hit += 1
+            want = cstr(('f', ('dc', gets[0], 'Some'), '0'))
+            if ins or slot != want:
+                why = why or 'a pattern whose key is already known goes to bucket %s (expected the bucket recorded for the key)' % slot
+        elif hit == 0:
+            n_new += 1
+            if len(ins) != 1 or len(ins[0][2]) != 3 or cstr(ins[0][2][2]) != slot:
+                why = why or 'a pattern with a new key is put into bucket %s but the map records %s' % (slot, cstr(ins[0][2][2])[:60] if ins else 'nothing')
+        else:
+            why = why or 'the bucket does not depend on the map lookup'
+    if why is None and not (n_hit == 1 and n_new == 1):
+        why = 'expected one known-key path and one new-key path per pattern (found %d / %d)' % (n_hit, n_new)
+    cx.report('R06.10', b, 'bucket-map', why is None, 'the bucket is looked up by the full key in a map that starts empty; a new key records the bucket it was given, a known key follows it' if why is None else 'Teddy::new: ' + why)
